@@ -277,12 +277,14 @@ PROPS["C06"] = {
     "stuck_s": 300,
     "floors": {"any": {"encode-probe:wiring-compared": 50000, "histories": 1000, "invariant-checks": 20000, "exhaustive-histories": 100000, "op:remove": 2000,
                        "op:unregister": 500, "op:set:ok": 300, "op:unset:ok": 50, "op:export:ok": 1000, "op:unexport": 500,
-                       "op:define:ok": 1000, "op:alias:ok": 300, "encode-probe:ok": 2000}},
+                       "op:define:ok": 1000, "op:alias:ok": 300, "encode-probe:ok": 2000,
+                       "op:set:ok:node-already-feeds-another-argument": 40, "op:unset:ok:node-still-feeds-another-argument": 8}},
     "rule": "Random part: libraries of 2-3 WIT-derived components (1-3 interfaces, no resources, no versions) and a universe of 8 "
             "definable types (record, list<record>, option<list<record>>, tuple<record,list>, alias, primitive alias, func type, "
             "resource); histories of 8-200 operations drawn over live identifiers from register/unregister package, define_type, "
             "import (kind of an argument / plain type), instantiate, alias_instance_export, set/unset argument (biased to "
-            "type-compatible sources), export (valid, invalid and import-only names), unexport, set_node_name, remove_node. After "
+            "type-compatible sources; components may import one function signature under two names, so one node can feed two "
+            "arguments of one instantiation and lose one of them again), export (valid, invalid and import-only names), unexport, set_node_name, remove_node. After "
             "EVERY operation: return value / error variant vs reference model M1, full query snapshot (nodes with kind, package, "
             "name, export name, arguments; get_export for every name ever used; imports(); packages()) vs the model, and the "
             "guarded verif_invariants() hook; every 8 operations an encode probe on a clone. Exhaustive part: after a fixed prefix "
@@ -601,7 +603,7 @@ PROPS["C11"] = {
     "shards": 16,
     "quick_budget_s": 60,
     "thorough_budget_s": 900,
-    "floors": {"any": {"handle-kind:differs": 300, "handle-kind:same": 300, "type-shadow:only-a-type-of-that-name": 300, "type-shadow:really-exported": 200, "merged-import:world-offers-less-than-the-union": 30, "merged-import:world-offers-the-union": 60, "pair:None": 200, "pair:Superset": 50, "pair:ImportRemoved": 50, "pair:ExportAdded": 50,
+    "floors": {"any": {"handle-kind:differs": 300, "handle-kind:same": 300, "type-shadow:only-a-type-of-that-name": 300, "type-shadow:really-exported": 200, "merged-import:world-offers-less-than-the-union": 30, "merged-import:world-offers-the-union": 60, "pair:None": 200, "pair:Superset": 50, "pair:ImportRemoved": 50, "pair:ExportAdded": 50, "pair:NothingExported": 50,
                        "pair:ImportTypeChanged": 50, "pair:ExportTypeChanged": 50, "pair:VersionShift": 5,
                        "resolve:accept": 200, "resolve:import-not-in-target": 50, "resolve:missing-export": 50,
                        "resolve:type-mismatch": 100, "reference:subtype": 100, "reference:not-subtype": 100}},
@@ -609,7 +611,8 @@ PROPS["C11"] = {
             "interfaces), a component (0-2 interface imports, 0-2 interface exports, 1-2 plain function imports and exports with one "
             "of 3 signatures) and a target world derived from the component's own world by one perturbation: none, superset "
             "(extra imports, fewer exports), one import removed, one export added, the type of an import or of an export changed, "
-            "or an interface import shifted to another version on the same track. The document `package test:comp targets "
+            "an interface import shifted to another version on the same track, or (one case in eight of the accepting shapes) a "
+            "composition that exports nothing at all against a world with exports. The document `package test:comp targets "
             "test:tgt/w; let i = new test:c0 { ... };` exports everything by spread or by named access. Verdicts compared: the "
             "expectation by construction, Document::resolve (Ok / ImportNotInTarget / MissingTargetExport / TargetMismatch), "
             "validate_target on (world package, output of the same document without the clause), and for resource-free libraries "
